@@ -15,7 +15,7 @@ RULE = ("1-3 run_experiment tasks per project, each writing scripted chunks to f
 
 SIZES_Q = [0, 1, 2, 100, 4095, 4096, 4097, 65536, 65537, 200000, 1 << 20]
 SIZES_T = SIZES_Q + [8 << 20]
-VALS = [0, 1, -5, 2.5, 1e-07, float("inf"), float("-inf"), float("nan"), True, False, "", "s", "two words", "unié", 10 ** 20, "--flag", "$HOME", "tab\there", "1", "true", "1.0"]
+VALS = [0, 1, 1.0, 0.0, -5, 2.5, 1e-07, float("inf"), float("-inf"), float("nan"), True, False, "", "s", "two words", "unié", 10 ** 20, "--flag", "$HOME", "tab\there", "1", "true", "1.0"]
 ESC = re.compile(rb"\x1b\[[0-9;]*m[^\x1b]*\x1b\[0m")
 
 
@@ -78,6 +78,13 @@ def gen_case(rng, tier):
         tasks.append(t)
         scripts[t["id"]] = {"steps": steps, "exit": 3 if fail else 0}
         expect[t["id"]] = {"out": realrun.b64(b"".join(o1)), "err": realrun.b64(b"".join(o2)), "fail": fail}
+    if rng.random() < 0.25 and len(tasks) >= 2:
+        # values that compare equal in Python but are of different types must stay distinct per task
+        fam = rng.choice([[[1], [True], [1.0]], [[0, "x"], [False, "x"], [0.0, "x"]], [[1, 2], [1.0, 2], [True, 2]]])
+        ofam = rng.choice([[{"k": 1}, {"k": True}, {"k": 1.0}], [{"k": 0}, {"k": False}, {"k": 0.0}]])
+        for i, t in enumerate(tasks):
+            t["args"] = list(fam[i % 3])
+            t["options"] = dict(ofam[(i + 1) % 3])
     top = gen.mk_task("", "top", "group", [t["id"] for t in tasks])
     tasks.append(top)
     return {"tasks": gen.dump(tasks), "scripts": scripts, "expect": expect, "mode": mode, "jobs": {"seq": None, "par": rng.choice([2, 3]), "nonpar-under-j": 3}[mode]}
